@@ -410,7 +410,8 @@ PositionsVerdict(ws, W, P, q) ==
   IN IF \E p \in real : p \notin all THEN "position-not-permitted-by-liang"
      ELSE IF \E p \in real : p \notin perm THEN "position-violates-hyphen-min"
      ELSE IF Cardinality(real) # Cardinality(ds) THEN "position-twice"
-     ELSE IF \E p \in perm \ real : ~\E k \in ds : pos(k) < p /\ p < endOf(k) THEN "position-missing"
+     ELSE IF \E p \in perm \ real : Bug = "AllPositions" \/ ~\E k \in ds : pos(k) < p /\ p < endOf(k)
+          THEN "position-missing"
      ELSE ""
 
 \* clause = "" if the relation holds between before B and after A, else the failed clause
